@@ -5,7 +5,15 @@
 
    Symbolic setting: a public key is named by the node id it hashes to; [Sig k cd eph dst] verifies only
    under key k for exactly (cd, eph, dst).  "A party that lacks X's secret key" = no term [Sig X ...]
-   in its packets; the theorems say what an effect REQUIRES of the step's input. *)
+   in its packets; the theorems say what an effect REQUIRES of the step's input.
+
+   Sessions expire (LruTimeCache): a session carries the time of its last use ([s_used]); [step c h e now d]
+   runs with the clock of the environment set to the time of the step ([with_clock c now]: the component
+   [cfg_clock] of the [c] passed to [step] is overwritten, never read), and an access to a session that
+   has been idle for longer than [cfg_session_ttl] removes it and finds nothing.  [tick c h now d] is the
+   state after the implicit tick of the step (expired timers fired, each under the clock of its fire time).
+   Expiry only ever REMOVES sessions and reports their addresses (HandlerOut::ExpiredSessions, an output
+   that names no remote record, request or response): it is on the safe side of every statement below. *)
 From Coq Require Import List NArith Bool.
 From Discv5V Require Import Model.Handler Proofs.HandlerB_Base Proofs.HandlerB_Frame Proofs.HandlerB_Session
   Proofs.HandlerB_Auth Proofs.HandlerB_Step Proofs.HandlerB_Examples.
@@ -95,7 +103,9 @@ Print Assumptions C01_no_key_no_effect.
 
 (* Only inbound WHOAREYOU and handshake packets create or re-key sessions: for every other event every
    session of the new state descends from one under the same node address (no new key, counter not
-   smaller).  In particular an ordinary message packet never creates a session. *)
+   smaller; [SessD] ignores the time stamp [s_used], which every access renews).  Sessions may
+   disappear - evicted, failed, or expired and purged -, they never appear.  In particular an ordinary
+   message packet never creates a session. *)
 Theorem C01_only_handshakes_create_sessions :
   forall c h e now d, creates_sessions e = false -> SessD h (fst (step c h e now d)).
 Proof. exact only_handshakes_create_sessions. Qed.
@@ -109,10 +119,15 @@ Proof. exact message_never_creates_session. Qed.
 Print Assumptions C01_message_never_creates_session.
 
 (* delivered_needs_session: whatever a message packet claiming (src, from) makes the handler report is
-   either a datagram / RequestFailed, or WhoAreYou for exactly (src, from), or it is attributed to
+   either a datagram / RequestFailed / ExpiredSessions (the report of purged sessions) - [quiet_out] -,
+   or WhoAreYou for exactly (src, from), or it is attributed to
    exactly (src, from) and the packet's body is [CEnc k n m aad] for a decryption key k (current or
    previous) of the session stored under (src, from) after the implicit tick, with the packet's own
-   nonce and authenticated data, and the reported message is m ([msg_out_ok], [Delivered]). *)
+   nonce and authenticated data, and the reported message is m ([msg_out_ok], [Delivered]).
+   The statement gives the necessary condition "a session with that key is stored".  The code demands
+   more: the stored session must not have expired (idle for longer than the session timeout at the time
+   of the step) - the lookup removes an expired session and the packet is answered with WhoAreYou like a
+   packet without session.  That stronger reading is not needed for C01 and is not stated here. *)
 Theorem C01_delivered_needs_session :
   forall c h from src n aad ct now d h' out o,
   step c h (EvInbound from (PMsg src n aad ct)) now d = (h', out) -> In o out ->
@@ -143,7 +158,11 @@ Print Assumptions C01_session_origin.
 (* how sessions change in one step: they descend from the previous ones, or the step is an accepted
    handshake (establish returned EstOk for the outstanding challenge of (src, from): by
    C01_establish_binds_id that needs src's signature) or an answered WHOAREYOU, and the new keys have
-   the corresponding shape *)
+   the corresponding shape.  [SessN na se h h']: every session of h' descends from one of h under the
+   same address, except that a session under [na] may additionally hold the keys of [se] (re-key of a
+   live session: Session::update) or be a new object descending from [se] - there was no session under
+   [na], or the one there had expired and was purged by new_session before the lookup.  In both cases the
+   only new keys in the state are those of [se], under [na]. *)
 Theorem C01_step_sessions :
   forall c h e now d,
   let h' := fst (step c h e now d) in
@@ -190,7 +209,8 @@ Theorem C01_whoareyou_attributes_contact :
 Proof. exact whoareyou_attributes_contact. Qed.
 Print Assumptions C01_whoareyou_attributes_contact.
 
-(* application events and timer ticks attribute nothing: datagrams and RequestFailed only *)
+(* application events and timer ticks attribute nothing: datagrams, RequestFailed and ExpiredSessions
+   (the addresses of purged sessions) only - [quiet_out] *)
 Theorem C01_local_events_attribute_nothing :
   forall c h e now d o,
   local_event e = true -> In o (snd (step c h e now d)) -> quiet_out o.
@@ -212,7 +232,17 @@ Proof.
 Qed.
 Print Assumptions C01_example_incoming_handshake.
 
+(* a request under the session's key is delivered; the only change of the state is the time stamp of
+   the session: stored with the time 13 of its last use (the response sent at 13), the access at time 14
+   finds it alive (ttl 1000000) and stamps it with 14 *)
 Example C01_example_session_delivers :
-  step ex_cfg h_session (EvInbound 100 pkt_request) 14 nod = (h_session, [OEvent (HRequest (7, 100) 10 0)]).
-Proof. exact request_step. Qed.
+  alist_get (7, 100) (sessions h_session) =
+    Some {| s_enc := mk_key 3 1 5 7 1 true; s_dec := kd7; s_old := None; s_await := None; s_counter := 1;
+            s_used := 13 |} /\
+  step ex_cfg h_session (EvInbound 100 pkt_request) 14 nod =
+    (set_sessions h_session
+       [((7, 100), {| s_enc := mk_key 3 1 5 7 1 true; s_dec := kd7; s_old := None; s_await := None;
+                      s_counter := 1; s_used := 14 |})],
+     [OEvent (HRequest (7, 100) 10 0)]).
+Proof. split; [exact h_session_has_session | exact request_step]. Qed.
 Print Assumptions C01_example_session_delivers.
